@@ -11,7 +11,7 @@ from __future__ import annotations
 from math import inf, isinf
 
 from .. import gen
-from ..engine import describe_ops, exc_key, run_case
+from ..engine import describe_ops, exc_key, observed_phase, run_case
 from ..runner import V
 
 ID = 'C01'
@@ -143,7 +143,10 @@ def check(case, stats):
     if any(isinf(float(x)) for x in cfg['stacks']):
         return []
     obs = Obs(cfg)
-    res = run_case(case, observers=(obs,))
+    ph = observed_phase(cfg)
+    if ph is not None:
+        stats.count('class:observed_run')
+    res = run_case(case, observers=(obs,), observed=ph)
     stats.count('outcome:' + str(res.outcome))
     if res.outcome == 'discard':
         return []
